@@ -283,6 +283,29 @@ def p_empty_nd(roi, shape):
     return got is want, f"roi_is_empty={got!r}, numpy selects {np.size(sel)} elements"
 
 
+def p_center(s):
+    """roi_center of a slice / index / N-D tuple: the middle of the selected index set of np.arange(n)[s] - for EVERY
+    length n for which the selection is not empty.  A roi whose selection depends on n in a way no single number can
+    describe (from-the-end offsets, open stop) must be refused with ValueError, never answered with a number."""
+    from odc.geo.roi import roi_center
+    ss = s if isinstance(s, tuple) else (s,)
+    try:
+        got = roi_center(s)
+    except ValueError:
+        return True, "refused (ValueError)"
+    gg = got if isinstance(got, tuple) else (got,)
+    for one, g in zip(ss, gg):
+        for n in (4, 7, 12, 33):
+            sel = np.arange(n)[one]
+            if np.size(sel) == 0:
+                continue
+            sel = np.atleast_1d(sel)
+            want = (int(sel[0]) + int(sel[-1]) + 1) / 2
+            if g != want:
+                return False, f"roi_center({s!r}) = {got!r}, but for an axis of length {n} the selection {sel.tolist()} is centred at {want}"
+    return True, f"center={got!r}"
+
+
 def p_pad(s, pad, n):
     """any int / slice index (negative, open-ended): the padded region is the selection grown by pad, clamped"""
     from odc.geo.roi import roi_pad
@@ -338,12 +361,15 @@ def p_points(pts, ny, nx, padding, align):
         # an empty region may be reported at either end of the axis
         same = all(g == w or (g[0] >= g[1] and w[0] >= w[1]) for g, w in zip(got, want))
         ok = ok and same
+    else:
+        # no finite point at all (none given, or every one NaN/inf): an empty region inside the image
+        ok = ok and (ry.stop <= ry.start or rx.stop <= rx.start)
     return ok, f"roi=({ry},{rx}) exact padded/aligned/clipped envelope={want}"
 
 
 PREDICATES = {"norm": p_norm, "intersect3": p_intersect3, "queries": p_queries, "pad": p_pad,
               "scale": p_scale, "points": p_points, "full_nd": p_full_nd,
-              "empty_nd": p_empty_nd}
+              "empty_nd": p_empty_nd, "center": p_center}
 
 
 def search(out, tier):
@@ -403,6 +429,17 @@ def search(out, tier):
             pairs = rng.sample(pairs, 4000)
         for a, b in pairs:
             run("intersect3", a, b, n)
+    # centre queries: absolute, from-the-end and open bounds, integer indices, N-D tuples
+    cvals = [None, 0, 1, 2, 3, -1, -2, -4]
+    csl = [slice(a, b) for a in cvals for b in cvals] + [0, 1, 2, -1, -3]
+    for s1 in csl:
+        run("center", s1)
+    for _ in range(60 if tier == "quick" else 600):
+        run("center", tuple(rng.choice(csl) for _ in range(rng.choice([2, 2, 3]))))
+    # no points / no finite points
+    for pts in ([], [(float("nan"), 1.0)], [(float("inf"), float("-inf")), (float("nan"), float("nan"))]):
+        for pad_, al_ in ((0, None), (2, 4), (1, 16)):
+            run("points", pts, rng.randint(1, 40), rng.randint(1, 40), pad_, al_)
     for a in range(0, 20):
         for b in range(a, 24):
             for k in (1, 2, 3, 4, 5, 8):
@@ -450,12 +487,19 @@ def run(out, tier, scratch):
                 "search: the property's predicates evaluated on the implementation with numpy as reference")
     out.assumptions += ["numpy indexing semantics as formalised by Model.Roi.np_get (validated against numpy on every CNpGet case)",
                         "exact rational model of float coordinates in roi_from_points (inputs restricted to exactly representable values)"]
-    cases = gen_cases(out, tier)
-    fails, log = core.coq_eval_failures(["Base.Result", "Model.Roi", "Model.RoiCases"], "case", "check", cases, scratch, shard=300)
-    detail = ""
-    if fails:
-        detail = "model and implementation differ on: " + " | ".join(cases[i] for i in fails[:5])
-    out.oblige("correspondence:Model.Roi vs odc.geo.roi", "correspondence", not fails, detail)
+    # a harness failure while recording the implementation (an exception type the recorder does not expect)
+    # is a broken obligation; the property search below runs regardless
+    try:
+        cases = gen_cases(out, tier)
+        fails, log = core.coq_eval_failures(["Base.Result", "Model.Roi", "Model.RoiCases"], "case", "check", cases, scratch, shard=300)
+        detail = ""
+        if fails:
+            detail = "model and implementation differ on: " + " | ".join(cases[i] for i in fails[:5])
+        out.oblige("correspondence:Model.Roi vs odc.geo.roi", "correspondence", not fails, detail)
+    except Exception as e:  # noqa: BLE001
+        import traceback
+        out.oblige("correspondence:Model.Roi vs odc.geo.roi", "correspondence", False,
+                   "case generation on the implementation failed: " + traceback.format_exc()[-400:])
     search(out, tier)
 
 
